@@ -32,6 +32,10 @@ type iterator struct {
 
 	prefixLen int
 
+	// numStartCursors is the number of cursors the iterator was created
+	// with, before any deletion was skipped.
+	numStartCursors int
+
 	lowerLevelIter Iterator // May be nil.
 
 	closer io.Closer
@@ -189,6 +193,8 @@ func (ss *segmentStack) startIterator(
 
 	// ----------------------------------------------
 	// Heap-ify the cursors.
+
+	iter.numStartCursors = len(iter.cursors)
 
 	heap.Init(iter)
 
@@ -453,7 +459,11 @@ func (iter *iterator) Pop() interface{} {
 // when there's only a single segment, then the heap can be avoided by
 // using a simpler, faster iteratorSingle implementation.
 func (iter *iterator) optimize() (Iterator, error) {
-	if len(iter.cursors) != 1 {
+	// Only safe when a single segment (or only the lower level) has
+	// entries in range.  A cursor that was exhausted while skipping
+	// deletions at the start would otherwise be forgotten, and a later
+	// SeekTo() backwards would resurrect the entries it deleted.
+	if len(iter.cursors) != 1 || iter.numStartCursors != 1 {
 		return iter, nil
 	}
 
